@@ -296,10 +296,17 @@ class Forest:
             result = results.pop()
             self.result.merge(result)
 
+    def _check_index(self, idx):
+        # Tree 0 always exists so there is no need to count solutions for it.
+        if idx > 0 and idx >= self.solutions:
+            raise IndexError(f"Forest index {idx} out of range.")
+
     def get_tree(self, idx=0):
+        self._check_index(idx)
         return LazyTree(self.result, idx)
 
     def get_nonlazy_tree(self, idx=0):
+        self._check_index(idx)
         return Tree(self.result, idx)
 
     def get_first_tree(self):
